@@ -39,7 +39,15 @@ def gen_episode(rng, strat=None, weights=None, depth=None, long=False):
     g = lbgen.Gen(rng, strategy=strat, passive=False, nback=len(weights), weights=list(weights))
     history(g, rng, depth if depth is not None else rng.choice([0, 0, 2, 6]))
     g.advance(6 * SEC)            # every window elapsed: stable eligible set from here on
+    if len(g.names) > 1 and rng.random() < 0.4:
+        # part of the pool stays ejected for the whole measured run: the contract is over the others
+        for name in rng.sample(g.names, rng.randint(1, len(g.names) - 1)):
+            g.eject(name=name, dur=3600 * SEC)
     if strat == "least_connections":
+        if rng.random() < 0.15:
+            # deep queues: the minimum is taken whatever the absolute in-flight numbers are
+            for _ in range(rng.choice([100, 101, 130]) * max(1, min(2, len(g.names)))):
+                g.begin()
         for _ in range(rng.randint(5, 40)):
             k = rng.random()
             if k < 0.6 or not g.infl:
@@ -146,6 +154,9 @@ def oracle(ep, outs, known=None):
                     mn = min(x.inflight for x in elig)
                     if chosen.inflight != mn:
                         fails.append("least_connections: %s chosen with %d in flight while minimum among eligible is %d (%s)" % (name, chosen.inflight, mn, line))
+            if sh.strategy == "least_connections" and elig and o == "resp 503":
+                fails.append("least_connections: nothing chosen (503) with in-flight counts %s among the eligible backends (%s)" % (
+                    sorted(x.inflight for x in elig), line))
         info = sh.apply(line, o)
         if w[1] == "begin":
             if info.get("served"):
